@@ -21,8 +21,20 @@ void harness(void){
 #else
   initMatrix(&inv);
 #endif
-  for(size_t i=0;i<HP_N;i++)for(size_t j=0;j<HP_N;j++) m->data[i][j]=in_double(-10,10);
+#if defined(HP_SMALL) && HP_SMALL
+  /* well conditioned but in a small unit: |entries| <= s = 10^-HP_SMALL, |det| >= s^N/100 (no absolute threshold may decide) */
+  const double sc = HP_SMALL==3 ? 1e-3 : HP_SMALL==5 ? 1e-5 : 1e-7;
+  for(size_t i=0;i<HP_N;i++)for(size_t j=0;j<HP_N;j++){ m->data[i][j]=in_double(-sc,sc); }
 #if HP_N==1
+  ASSUME(m->data[0][0]*100>=sc || m->data[0][0]*100<=-sc);
+#else
+  { double d=det2(m->data[0][0],m->data[0][1],m->data[1][0],m->data[1][1]); ASSUME(d*100>=sc*sc||d*100<=-sc*sc); }
+#endif
+#else
+  for(size_t i=0;i<HP_N;i++)for(size_t j=0;j<HP_N;j++) m->data[i][j]=in_double(-10,10);
+#endif
+#if defined(HP_SMALL) && HP_SMALL
+#elif HP_N==1
   ASSUME(m->data[0][0]>=1e-2 || m->data[0][0]<=-1e-2);
 #elif HP_N==2
   { double d=det2(m->data[0][0],m->data[0][1],m->data[1][0],m->data[1][1]); ASSUME(d>=1e-2||d<=-1e-2); }
